@@ -266,6 +266,10 @@ pub fn query_log(data_format: Format, data_set: &str, data: &[u8], index_format:
             let index = parse!(csi::io::Reader::new(index_bytes).read_index());
             vcf_queries(&mut log, data, &index, &lim, cap) && indexed_text_queries(&mut log, data, index, cap)
         }
+        (Format::Fasta, Format::Fai) => {
+            log.extend(fasta_query_lines(data, index_bytes));
+            true
+        }
         (Format::Cram, Format::Crai) => {
             let index = parse!(noodles_cram::crai::io::Reader::new(index_bytes).read_index());
             cram_queries(&mut log, data, &index, &lim, cap)
@@ -315,6 +319,43 @@ pub fn query_log(data_format: Format, data_set: &str, data: &[u8], index_format:
     log
 }
 
+
+/// Region queries of a plain FASTA through `fasta::io::IndexedReader` with the given fai, plus `fai::Index::query`
+/// itself. The regions come from the index: per name the whole sequence, its first bases, the last two positions
+/// the index claims, and a range past the claimed end.
+fn fasta_query_lines(data: &[u8], fai_bytes: &[u8]) -> Vec<String> {
+    use noodles_fasta as fasta;
+    let index = match fasta::fai::io::Reader::new(fai_bytes).read_index() {
+        Ok(i) => i,
+        Err(e) => return vec![format!("index: {}", vnd::render_err(&e))],
+    };
+    let mut regions: Vec<String> = Vec::new();
+    for r in index.as_ref().iter().take(3) {
+        let n = String::from_utf8_lossy(r.name()).into_owned();
+        let len = r.length();
+        regions.push(n.clone());
+        regions.push(format!("{n}:1-50"));
+        if len >= 2 && len < usize::MAX as u64 {
+            regions.push(format!("{n}:{}-{len}", len - 1));
+        }
+        regions.push(format!("{n}:{}-{}", len.saturating_add(1).min(usize::MAX as u64 - 20), len.saturating_add(10).min(usize::MAX as u64 - 10)));
+    }
+    regions.push("nosuchref".into());
+    let mut log = Vec::new();
+    let mut reader = fasta::io::IndexedReader::new(Cursor::new(data), index.clone());
+    for r in regions {
+        let Ok(region) = r.parse::<noodles_core::Region>() else { continue };
+        match index.query(&region) {
+            Ok(pos) => log.push(format!("fai query {region}: offset={pos}")),
+            Err(e) => log.push(format!("fai query {region}: {}", vnd::render_err(&e))),
+        }
+        match reader.query(&region) {
+            Ok(rec) => log.push(format!("fasta {region}: {}", vnd::drive::render_fasta_record(rec.name(), rec.description().map(|d| d.as_ref()), rec.sequence().as_ref()))),
+            Err(e) => log.push(format!("fasta {region}: {}", vnd::render_err(&e))),
+        }
+    }
+    log
+}
 
 /// Region queries of a bgzipped FASTA through `fasta::io::IndexedReader` over `bgzf::io::IndexedReader` (fai + gzi of
 /// the complete file). One line per region: `fasta <region>: name=… seq=…` or `fasta <region>: Err(…)`.
